@@ -35,7 +35,7 @@ class CifFile():
 
     def _cif_dict(self) -> Dict[str, str]:
         cif_dict = {}
-        cif_dict["data_name"] = self.data.titl.split()[0].lower() or "unknown"
+        cif_dict["data_name"] = (self.data.titl.split() or ["unknown"])[0].lower()
         cif_dict["version"] = VERSION
         cif_dict["creation_date"] = f"{datetime.datetime.now().strftime('%Y-%m-%d %H:%M:%S')}"
         cif_dict["sum_formula"] = self.data.sum_formula
